@@ -374,8 +374,10 @@ class Executor:
         st.nfresh[kind] = n
         ref = const('new_%s_%d' % (kind.replace(':', '_').replace('.', '_'), n))
         # distinct from everything that existed before and from other fresh objects
-        st.add(Z.birth(ref) == z3.Int('clock0') + sum(st.nfresh.values()), ref != Z.NONE, z3.Not(Z.is_int(ref)), z3.Not(Z.is_str(ref)),
-               z3.Not(Z.is_tuple(ref)))
+        st.add(Z.birth(ref) >= z3.Int('clock0'), ref != Z.NONE, z3.Not(Z.is_int(ref)), z3.Not(Z.is_str(ref)), z3.Not(Z.is_tuple(ref)))
+        for other in st.ghost.get('$allocs', ()):
+            st.add(ref != other)
+        st.ghost['$allocs'] = list(st.ghost.get('$allocs', ())) + [ref]
         st.objs[str(ref)] = obj
         return ref
 
@@ -625,6 +627,8 @@ class Executor:
         raise Unsupported('unresolved name %s in %s' % (name, module))
 
     def _glom_global(self, st, name, module, strict=False):
+        if name == 'bbrepr':
+            return SV('builtin', 'bbrepr')
         canon = self.facts.canonical(module, name)
         if canon is None:
             return None
